@@ -6,7 +6,7 @@ CONSTANTS
   MaxChal = 2
   Vals = {"x", "y"}
   Blocks = {"b1", "b2"}
-  MaxAdv = 2
+  MaxAdv = 1
   MaxOps = 3
   Kinds = {"lite", "lites", "ntag"}
   Defects = {"lites_none_subscript", "lites_protect_encode", "ndef_none_subscript"}
@@ -23,4 +23,5 @@ INVARIANT ProtectThenAuth
 INVARIANT MacReadFresh
 INVARIANT MacReadAuthentic
 INVARIANT MacReadComplete
+INVARIANT NdefVerified
 CHECK_DEADLOCK FALSE
